@@ -355,7 +355,8 @@ def run_v(chk):
         stat[T["ret"]] = stat.get(T["ret"], 0) + 1
         d = diags[k]
         chk.count(json.dumps([T["solver"], T["prec"], T["scen"], T["tag"], T["mkind"], T["n"], T["ret"], T["retNi"]]), nontrivial=len(T["ev"]) >= 2)
-        if T["ret"] == "success" and isinstance(d.get("res"), (int, float)) and d["res"] > 0 and T["retNi"] > 0:
+        if T["ret"] == "success" and isinstance(d.get("res"), (int, float)) and d["res"] > 0 and T["retNi"] > 0 \
+                and T["scen"] in ("basic", "converge", "exact"):
             nsucc += 1
             # drift allowance / (true residual - reported defect): how much of the allowance is used at most
             gap = max(d["res"] - d["def_final"], 0.0) if isinstance(d.get("def_final"), (int, float)) else 0.0
